@@ -327,18 +327,22 @@ def configs(tier, seed):
                  (((3, 9), (9, 9)), 0), (((9, 3), (9,)), 1)]
         act = [(L, 8, ps) for L in (1, 7, 8, 20, 120, 1800, 4095) for ps in (0, 8)]
     else:
-        Ls = list(range(1, 131)) + [250, 251, 252, 1784, 1785, 1786, 1791, 1792, 1793, 4093, 4094,
-                                    4095]
+        Ls = list(range(1, 401)) + list(range(401, 4090, 53)) + \
+            [1784, 1785, 1786, 1791, 1792, 1793, 4089, 4090, 4091, 4092, 4093, 4094, 4095]
         fss = [8] + FS_FD
-        seqs = [c for c in itertools.product([1, 7, 8, 13, 14, 20], repeat=2)] + \
-            [(7, 8, 6), (8, 8, 8), (1, 20, 1), (14, 13, 112)]
+        seqs = [c for c in itertools.product([1, 7, 8, 13, 14, 20, 112, 113], repeat=2)] + \
+            [c for c in itertools.product([1, 7, 8, 14], repeat=3)] + \
+            [(7, 8, 6), (8, 8, 8), (1, 20, 1), (14, 13, 112), (4095, 1, 4095), (1, 1, 1, 1, 8)]
         inter = [(((9,), (3,)), 1), (((9,), (10,)), 1), (((3,), (3,), (3,)), 2), (((10,), (3,)), 2),
                  (((9,), (9,), (3,)), 0), (((14,), (9,)), 0), (((16,), (3,)), 1),
                  (((3, 9), (9, 9)), 1), (((9, 3), (9,)), 2), (((9, 9), (14, 9)), 0),
-                 (((9, 9), (9,), (9,)), 0)]
-        act = [(L, 8, ps) for L in (1, 6, 7, 8, 13, 14, 20, 120, 1800, 4095) for ps in (0, 3, 8)]
+                 (((9, 9), (9,), (9,)), 0), (((9,), (9,), (9,)), 1), (((15,), (10,)), 1),
+                 (((3, 3), (3, 3), (3,)), 1), (((9, 3), (3, 9)), 2), (((20,), (3,), (3,)), 1)]
+        act = [(L, fs_, ps) for L in (1, 6, 7, 8, 13, 14, 20, 21, 112, 113, 120, 1800, 4095)
+               for ps in (0, 3, 8) for fs_ in (8,)] + [(L, 64, ps) for L in (63, 70, 200) for ps in (0, 64)]
     for fs in fss:
-        for L in (Ls if fs == 8 or tier != "quick" else [1, 7, 63, 64, 70, 130, 4095]):
+        for L in (Ls if fs == 8 else ([1, 7, 63, 64, 70, 130, 4095] if tier == "quick" else
+                                    list(range(1, 201)) + [250, 251, 252, 1000, 4094, 4095])):
             if fs > 8 and L > 7 and L <= fs - 2:
                 continue  # CAN FD would use an escape-length single frame (not in the envelope)
             for pad in ([False, True] if (fs == 8 or L in (1, 9, 70)) else [True]):
@@ -373,9 +377,10 @@ BOUNDS = {
                                   "frames), payload and padding bytes symbolic",
               "sequences": "2..3 telegrams per id", "interleavings": "2..3 ids, <= 6 frames, one "
               "inserted flow-control / unrelated-id frame; schedule symbolic (value-forked)"},
-    "thorough": {"telegram_lengths": "1..130 + boundaries up to 4095; frame sizes 8,12,16,20,24,32,"
-                                     "48,64", "sequences": "all pairs over {1,7,8,13,14,20} + "
-                 "triples", "interleavings": "up to 3 ids, <= 7 frames, up to 2 inserted frames"},
+    "thorough": {"telegram_lengths": "classic frames: 1..400, every 53rd length to 4089, boundaries "
+                                     "to 4095; FD frame sizes 12,16,20,24,32,48,64: 1..200 + boundaries",
+                 "sequences": "all pairs over {1,7,8,13,14,20,112,113}, all triples over {1,7,8,14} + "
+                 "long ones", "interleavings": "up to 3 ids, <= 8 frames, up to 2 inserted frames"},
 }
 STUBS = ["bitstruct -> models.bitstruct_model (py variant, which isotp_state_machine imports)",
          "bytearray()/bytes()/int() shims", "can.BusABC -> recording stub"]
